@@ -163,8 +163,9 @@ def toSigTx (t : Schema.Tx) (xs : Bool) (txidOk : Bool) : SigLogic.Tx :=
   let ks := t.signs.xuperPublicKeys.map keyOf
   { txidOk := txidOk, initiator := nameOf t.core.initiator, initiatorSigns := t.signs.initiatorSigns.map sg,
     authRequire := t.core.authRequire.map authReqOf, authRequireSigns := t.signs.authRequireSigns.map sg,
+    -- an `X` token is a multi-signature of the keys it names
     xuper := if xs then some ⟨ks, ks.all (·.isSome) &&
-      t.signs.xuperSignature == [0x58] ++ (ks.filterMap id).map UInt8.ofNat ++ [0x2e] ++ dig⟩ else none,
+      t.signs.xuperSignature == [0x58] ++ (ks.filterMap id).map UInt8.ofNat ++ [0x2e] ++ dig, true⟩ else none,
     inputs := t.core.inputs.map fun i => { owner := nameOf i.fromAddr } }
 
 /-- value of `k=` in a token list, split at the first '=' only (transaction specs contain '=') -/
@@ -243,6 +244,95 @@ def vc (ws : List String) : String :=
     pure (if ok then "accept" else "reject")
   r.getD "bad-op"
 
+/-! ### sx: `State.VerifyTx` and `Chain.SubmitTx` of a real node -/
+
+/-- a decimal number below `bound`, spelled without leading zeros -/
+def sxNum (s : String) (bound : Nat) : Option Nat :=
+  match s.toNat? with
+  | some n => if n < bound && toString n == s then some n else none
+  | none => none
+
+/-- `A<i>` (i < 8) | `C<n>` (n < 6, where accounts are allowed) -/
+def sxName (tok : String) (accountsToo : Bool) : Option SigLogic.Name :=
+  match tok.toList with
+  | 'A' :: r => (sxNum (String.ofList r) 8).map SigLogic.Name.ak
+  | 'C' :: r => if accountsToo then (sxNum (String.ofList r) 6).map SigLogic.Name.account else none
+  | _ => none
+
+def sxUri (tok : String) : Option SigLogic.AuthReq :=
+  match tok.splitOn "|" with
+  | [a] => match sxName a false with
+    | some (.ak i) => some ⟨none, i⟩
+    | _ => none
+  | [c, a] => match sxName c true, sxName a false with
+    | some (.account n), some (.ak i) => some ⟨some n, i⟩
+    | _, _ => none
+  | _ => none
+
+/-- a signature entry `<k>` (valid) | `<k>x` (does not verify), under the public key of key k -/
+def sxEntry (tok : String) : Option SigLogic.Sig :=
+  if tok.endsWith "x" then (sxNum ((tok.dropEnd 1).toString) 8).map fun k => ⟨some k, false⟩
+  else (sxNum tok 8).map fun k => ⟨some k, true⟩
+
+/-- the chain of the harness: accounts C0..C3 are controlled by A0..A3 (threshold 1); a name without
+stored rule is open to everybody (`IdentifyAccount`), but what it owns cannot be spent -/
+def sxEnv : SigLogic.Env where
+  acctOk := fun n uris => if n < 4 then uris.any (fun u => u.prefixAcct == some n && u.addr == n) else true
+  acctExists := fun n => n < 4
+  -- method 1 = `$xvgate.guarded`, rule {A3: 1, C2: 1}, threshold 1: address 3 among the users, or account 2 through its key
+  methodOk := fun m us => m != 1 || us.any (fun u => (u.prefixAcct == none && u.addr == 3) || (u.prefixAcct == some 2 && u.addr == 2))
+
+def sxAct (tok : String) : Option (Bool × List SigLogic.AclWrite) :=
+  match tok.toList with
+  | ['T'] => some (false, [])
+  | ['K'] => some (true, [])
+  | ['G'] => some (true, [])
+  | ['S', ':', 'C', d] => (sxNum (String.singleton d) 4).map fun n => (true, [.account n])
+  | ['N', ':', 'C', d] => match sxNum (String.singleton d) 6 with
+    | some n => if 4 ≤ n then some (true, [.account n]) else none
+    | none => none
+  | ['M', ':', 'c', d] => match sxNum (String.singleton d) 4 with
+    | some 1 => some (true, [.method (some 1)])
+    | some 2 => some (true, [.method (some 2)])
+    | some 3 => some (true, [.method none])
+    | _ => none
+  | _ => none
+
+def sx (ws : List String) : String :=
+  let r : Option String := do
+    let ch ← kv1 ws "ch"
+    let form ← kv1 ws "form"
+    let ver ← (← kv1 ws "ver").toNat?
+    let xst ← kv1 ws "xst"
+    let ini ← sxName (← kv1 ws "init") true
+    let isg ← listOf (← kv1 ws "isg") "," sxEntry
+    let auth ← listOf (← kv1 ws "auth") "," sxUri
+    let asg ← listOf (← kv1 ws "asg") "," sxEntry
+    let xk ← listOf (← kv1 ws "xk") "," (sxNum · 8)
+    let xsg ← listOf (← kv1 ws "xsg") "_" (sxNum · 8)
+    let ins ← listOf (← kv1 ws "in") "," (sxName · true)
+    let (hasReq, writes) ← sxAct (← kv1 ws "act")
+    if !(ch == "p" || ch == "m") || !(form == "c" || form == "x") || ver < 1 || ver > 3 then none
+    -- what the signing library can produce
+    if !(["m", "e", "v", "s", "r"].contains xst) || (xst == "m" && xsg.length == 1) || (xst != "m" && xsg.length != 1) then none
+    if xst == "r" && (!xk.Nodup || ((xk.filter (fun k => some k != xsg.head?)).length < 2)) then none
+    if ins.any (fun o => (ins.filter (· == o)).length > 4) then none
+    let sigOk : Bool :=
+      if xst == "m" then xk == xsg && decide (2 ≤ xk.length)
+      else if xst == "r" then xsg.any (xk.contains ·)
+      else xk.head? == xsg.head? && !xk.isEmpty
+    let t : SigLogic.Tx := {
+      txidOk := true, initiator := ini,
+      initiatorSigns := if form == "c" then isg else [], authRequire := auth,
+      authRequireSigns := if form == "c" then asg else [],
+      xuper := if form == "x" then some { keyAddrs := xk.map some, sigOk := sigOk, multi := xst == "m" } else none,
+      inputs := ins.map fun o => { owner := o }, hasRequests := hasReq, aclWrites := writes,
+      calls := if (← kv1 ws "act") == "G" then [1] else if hasReq then [0] else [] }
+    let relies := ch == "m" && !ins.isEmpty
+    let v := SigLogic.stateVerifyTx relies sxEnv t
+    pure s!"verify={if v.ok then "accept" else "reject"} pool={if SigLogic.submitTx relies sxEnv t true then "in" else "out"}"
+  r.getD "bad-op"
+
 def stepC07 (line : String) : Option String :=
   match words line with
   | ["d3", spec] => some <| match parsePTx spec with
@@ -269,6 +359,7 @@ def stepC07 (line : String) : Option String :=
     else some (if v1Stream [a] [] == v1Stream [b] [] then "collide" else "distinct")
   | "vt" :: ws => some (vt ws)
   | "vc" :: ws => some (vc ws)
+  | "sx" :: ws => some (sx ws)
   | _ => none
 
 end XV.Drv.EncTx
